@@ -231,7 +231,9 @@ func genParse(t *rapid.T) parseCase {
 		data = append([]byte{version}, rapid.SliceOfN(rapid.Byte(), plen, plen).Draw(t, "payload")...)
 	}
 	var s string
-	switch h.Pick(t, "symk", 8, 2, 1) {
+	switch h.Pick(t, "symk", 8, 2, 1, 1) {
+	case 3: // well-formed address whose checksum belongs to another constant (Bech32m, 0, ...)
+		s = ref.EncodeSymbolsConst(hrp, ref.ToSymbols(data), bgen.WrongConsts[h.Pick(t, "wc", 6, 1, 1, 1, 1, 1, 1, 1)])
 	case 0:
 		s = ref.EncodeSymbols(hrp, ref.ToSymbols(data))
 	case 1: // non-zero padding bits in the last data symbol (checksum still correct)
@@ -263,7 +265,81 @@ func TestParse(t *testing.T) {
 		Prop: "C19", Name: "parse-strict", N: 80000,
 		Gen: genParse, Check: checkParse,
 		Require: []string{"accept/v00", "accept/v08", "accept/v10", "reject/prefix", "reject/version", "reject/length", "reject/no-version", "reject/bech32-checksum", "reject/bech32-padding", "reject/bech32-case", "reject/bech32-charrange"},
-		Rule:    "reference-encoded Bech32 strings with known / near-miss / random prefixes, version bytes 0..255 (weighted to 0x00, 0x08, 0x10 and neighbours), payload lengths 0..50, case variants and 0..2 hostile edits; non-trivial = passes Bech32 decoding in the reference (so prefix/version/length decide); distinct by string",
+		Rule:    "reference-encoded Bech32 strings with known / near-miss / random prefixes, version bytes 0..255 (weighted to 0x00, 0x08, 0x10 and neighbours), payload lengths 0..50, well-formed addresses whose checksum belongs to another constant (Bech32m, 0, ...), case variants and 0..2 hostile edits; non-trivial = passes Bech32 decoding in the reference (so prefix/version/length decide); distinct by string",
+	})
+}
+
+// ---- concurrent callers sharing a network prefix ----
+
+type concCase struct {
+	Strings []h.S `json:"strings"`
+	Iters   int   `json:"iters"`
+}
+
+func checkConcurrent(c concCase) (h.Info, error) {
+	type exp struct {
+		ok   bool
+		data []byte
+	}
+	want := make([]exp, len(c.Strings))
+	acc := 0
+	for i, s := range c.Strings {
+		// sequential verdict through the full single-call check (also validates the case)
+		info, err := checkParse(parseCase{S: s})
+		if err != nil {
+			return h.Info{Class: "sequential"}, err
+		}
+		want[i].ok = len(info.Class) > 6 && info.Class[:6] == "accept"
+		if want[i].ok {
+			want[i].data = ref.Decode(string(s)).Data
+			acc++
+		}
+	}
+	info := h.Info{Class: fmt.Sprintf("goroutines=%d", len(c.Strings)), NT: acc > 0}
+	if acc > 0 && acc < len(c.Strings) {
+		info.Class += "/mixed"
+	}
+	err := h.Parallel(len(c.Strings), func(g int) error {
+		s := string(c.Strings[g])
+		for it := 0; it < c.Iters; it++ {
+			p, a, err := address.ParseBech32(s)
+			if want[g].ok != (err == nil) || (err == nil && !bytes.Equal(a.Bytes(), want[g].data)) {
+				return fmt.Errorf("goroutine %d of %d (all parsing addresses of the same network prefix), iteration %d: ParseBech32(%q) = (%v, %v), expected accept=%v", g, len(c.Strings), it, s, p, err, want[g].ok)
+			}
+			if err == nil {
+				if re, err := address.Bech32(p, a); err != nil || re != ref.AsciiLower(s) {
+					return fmt.Errorf("goroutine %d of %d (same network prefix), iteration %d: address parsed from %q re-encodes to %q, %v", g, len(c.Strings), it, s, re, err)
+				}
+			}
+		}
+		return nil
+	})
+	return info, err
+}
+
+func TestConcurrent(t *testing.T) {
+	h.Run(t, h.Sub[concCase]{
+		Prop: "C19", Name: "concurrent-callers", N: 100,
+		Gen: func(t *rapid.T) concCase {
+			c := concCase{Iters: 300}
+			hrp := h.OneOf(t, "hrp", knownHRP...)
+			for i := h.OneOf(t, "g", 2, 4, 8); i > 0; i-- {
+				version := h.OneOf(t, "ver", byte(0x00), 0x08, 0x10)
+				data := append([]byte{version}, h.BytesN(t, "payload", versionLen[version])...)
+				s := ref.EncodeSymbols(hrp, ref.ToSymbols(data))
+				if h.Pick(t, "bad", 2, 1) == 1 {
+					b := []byte(s)
+					p := rapid.IntRange(len(hrp)+1, len(b)-1).Draw(t, "pos")
+					b[p] = ref.Charset[(bytes.IndexByte([]byte(ref.Charset), b[p])+rapid.IntRange(1, 31).Draw(t, "d"))%32]
+					s = string(b)
+				}
+				c.Strings = append(c.Strings, h.S(s))
+			}
+			return c
+		},
+		Check:   checkConcurrent,
+		Require: []string{"goroutines=2/mixed", "goroutines=8/mixed"},
+		Rule:    "schedules: 2..8 goroutines released together, each parsing (and re-encoding) its own valid or one-character-corrupted address 300 times, all of one network prefix; every verdict = the sequential verdict against the reference; non-trivial = at least one valid address",
 	})
 }
 
